@@ -1,1 +1,22 @@
-//! placeholder
+//! C06 — the 4-wide slab test `cast_ray` at the bit level (engine M decides it over exact reals; the reciprocal of a
+//! sub-normal direction component overflows only in f64).  Witness formulation without rounding: when the ray origin itself lies
+//! in the box, the line certainly passes through the box, whatever the direction — the lane must not be pruned.
+use engeom::verif_hooks::cast_ray;
+use parry2d_f64::bounding_volume::{Aabb, SimdAabb};
+use parry2d_f64::na::{Point2, SimdValue, Vector2};
+use parry2d_f64::query::{Ray, SimdRay};
+
+#[kani::proof]
+fn c06_cast_ray_origin_inside() {
+    let v: [f64; 8] = kani::any();
+    kani::assume(v.iter().all(|x| x.is_finite() && x.abs() < 1e6));
+    let (minx, miny, maxx, maxy, ox, oy, dx, dy) = (v[0], v[1], v[2], v[3], v[4], v[5], v[6], v[7]);
+    kani::assume(minx <= ox && ox <= maxx && miny <= oy && oy <= maxy);
+    let aabb = Aabb::new(Point2::new(minx, miny), Point2::new(maxx, maxy));
+    let bv = SimdAabb::splat(aabb);
+    let ray = SimdRay::splat(Ray::new(Point2::new(ox, oy), Vector2::new(dx, dy)));
+    let (mask, _) = cast_ray(&bv, &ray);
+    assert!(mask.extract(0), "a box that contains the ray origin is never pruned");
+    kani::cover!(dx == 0.0 && dy != 0.0);
+    kani::cover!(dx != 0.0 && dx.abs() < 1e-300);
+}
